@@ -290,6 +290,12 @@ func (p *ParagraphReader) Next() (*Paragraph, error) {
 			 * such a field would be a comment. */
 			return nil, fmt.Errorf("Bad line: field name '%s' starts with '#'", lastKey)
 		}
+		if strings.HasPrefix(lastKey, "-") {
+			/* Policy 5.1: a field name must not begin with '#' or '-'.
+			 * Written back out as the first field, "-----BEGIN PGP ...: x"
+			 * would be taken for the start of an OpenPGP armor. */
+			return nil, fmt.Errorf("Bad line: field name '%s' starts with '-'", lastKey)
+		}
 		if _, found := paragraph.Values[lastKey]; found {
 			return nil, fmt.Errorf("Bad line: field '%s' appears twice", lastKey)
 		}
